@@ -8,6 +8,7 @@ import Iso8583.Drivers.Layers
 import Iso8583.Drivers.Fields
 import Iso8583.Drivers.Net
 import Iso8583.Drivers.Describe
+import Iso8583.Drivers.Spec
 
 namespace Iso8583.Driver
 
@@ -15,7 +16,8 @@ def handlers : List (List String → Option String) :=
   [ Iso8583.Drivers.Layers.handle,
     Iso8583.Drivers.Fields.handle,
     Iso8583.Drivers.Net.handle,
-    Iso8583.Drivers.Describe.handle ]
+    Iso8583.Drivers.Describe.handle,
+    Iso8583.Drivers.Spec.handle ]
 
 def runLine (line : String) : String :=
   let toks := line.splitOn " "
